@@ -8,6 +8,7 @@ mod d_pool;
 mod d_misc;
 mod http;
 mod d_serve;
+mod d_conn;
 
 fn main() {
     let args: Vec<String> = std::env::args().collect();
@@ -22,6 +23,8 @@ fn main() {
         "pool" => d_pool::run(&opts),
         "mime" => d_misc::mime(&opts),
         "serve" => d_serve::run(&opts),
+        "conn" => d_conn::run(&opts),
+        "conn-child" => d_conn::child(&opts),
         "random-worlds" => d_serve::random_worlds(&opts),
         other => {
             eprintln!("unknown domain {}", other);
